@@ -10,6 +10,7 @@ package connectconformance
 
 import (
 	"context"
+	"sync"
 	"errors"
 	"fmt"
 	"io"
@@ -33,6 +34,11 @@ type c11InprocScenario struct {
 	End     string   `json:"end"`   // wait-nil | wait-err | err-now | err-after-cases | nil-now
 	RefSrv  bool     `json:"ref_server"`
 	Answers string   `json:"answers"` // pass | mismatch
+	// LongLine: a stderr line of this many bytes (other output) is written before the late lines
+	LongLine int `json:"long_line,omitempty"`
+	// PctNames: the case names contain per-cent signs and the server emits its feedback the way the
+	// reference server does, through internal.NewPrinter(stderr).PrefixPrintf(name, ...)
+	PctNames bool `json:"pct_names,omitempty"`
 }
 
 var errC11Impl = errors.New("listen tcp 127.0.0.1:8080: bind: address already in use")
@@ -64,7 +70,34 @@ func c11InprocScenarios(thorough bool) []c11InprocScenario {
 			}
 		}
 	}
+	// long stderr lines (a feedback line behind one must still arrive and the server must still be stoppable)
+	for _, size := range []int{4095, 65535, 65536, 70000, 1 << 20} {
+		for _, end := range []string{"wait-nil", "err-after-cases"} {
+			out = append(out, c11InprocScenario{N: 2, Read: "all", Resp: "ok", Late: []string{"s/c0: server feedback\n"}, End: end, RefSrv: true, Answers: "pass", LongLine: size})
+		}
+	}
+	// names with per-cent signs, feedback through the real printer
+	for _, n := range []int{1, 3} {
+		out = append(out, c11InprocScenario{N: n, Read: "all", Resp: "ok", Late: []string{"s/c0: server feedback\n"}, End: "wait-nil", RefSrv: true, Answers: "pass", PctNames: true})
+		out = append(out, c11InprocScenario{N: n, Read: "all", Resp: "ok", Late: []string{"other output 100%\n", "s/c0: server feedback: 50% done\n"}, End: "wait-err", RefSrv: true, Answers: "pass", PctNames: true})
+	}
 	return out
+}
+
+// c11InprocName maps the script's case names to the names used in the batch.
+func c11InprocName(sc c11InprocScenario, n string) string {
+	if !sc.PctNames {
+		return n
+	}
+	switch n {
+	case "s/c0":
+		return "s/100%/c0"
+	case "s/c1":
+		return "s/%d %s/c1"
+	case "s/c2":
+		return "s/%!v(MISSING)/%/c2"
+	}
+	return n
 }
 
 type c11InprocObs struct {
@@ -90,6 +123,7 @@ func c11InprocRun(t *testing.T, sc c11InprocScenario) (obs *c11InprocObs, leak s
 		defer cancel()
 		casesDone := make(chan struct{})
 		impl := func(ctx context.Context, _ []string, in io.ReadCloser, out, errw io.WriteCloser) error {
+			defer func() { obs.implDone = true }()
 			switch sc.Read {
 			case "all":
 				_, _ = io.ReadAll(in)
@@ -112,7 +146,14 @@ func c11InprocRun(t *testing.T, sc c11InprocScenario) (obs *c11InprocObs, leak s
 			case "garbage":
 				_, _ = out.Write([]byte{0, 0, 0, 3, 0xff, 0xff, 0xff})
 			}
+			if sc.LongLine > 0 {
+				_, _ = io.WriteString(errw, strings.Repeat("x", sc.LongLine-1)+"\n")
+			}
 			for _, l := range sc.Late {
+				if i := strings.Index(l, ": "); sc.PctNames && strings.HasPrefix(l, "s/c") && i > 0 {
+					internal.NewPrinter(errw).PrefixPrintf(c11InprocName(sc, l[:i]), "%s", strings.TrimSuffix(l[i+2:], "\n"))
+					continue
+				}
 				_, _ = io.WriteString(errw, l)
 			}
 			switch sc.End {
@@ -138,6 +179,9 @@ func c11InprocRun(t *testing.T, sc c11InprocScenario) (obs *c11InprocObs, leak s
 		}
 		argv := []string{"scripted-in-process-server"}
 		cases := c11Cases(c11Scenario{N: sc.N})
+		for _, tc := range cases {
+			tc.Request.TestName = c11InprocName(sc, tc.Request.TestName)
+		}
 		results := newResults(len(cases), &testTrie{}, &testTrie{}, nil)
 		dummy := &c11Server{outNotify: make(chan struct{}), errNotify: make(chan struct{}), done: make(chan struct{})}
 		cl := &c11Client{sc: c11Scenario{N: sc.N, Sync: true, SendErrAt: -1}, answers: map[string]string{}, srv: dummy}
@@ -148,7 +192,9 @@ func c11InprocRun(t *testing.T, sc c11InprocScenario) (obs *c11InprocObs, leak s
 				close(casesDone)
 			}
 		}}
-		logP, errP := &c11Printer{}, &c11Printer{}
+		logP := &c11Printer{}
+		errBuf := &c11LockedBuffer{}
+		errP := internal.NewPrinter(errBuf)
 		done := make(chan struct{})
 		go func() {
 			defer close(done)
@@ -175,12 +221,27 @@ func c11InprocRun(t *testing.T, sc c11InprocScenario) (obs *c11InprocObs, leak s
 		for k, v := range results.outcomes {
 			obs.outcomes[k] = v
 		}
-		errP.mu.Lock()
-		obs.errLines = append([]string(nil), errP.lines...)
-		errP.mu.Unlock()
+		obs.errLines = strings.Split(strings.TrimSuffix(errBuf.String(), "\n"), "\n")
 		obs.casesSeen = clWrap.n
 	})
 	return
+}
+
+type c11LockedBuffer struct {
+	mu sync.Mutex
+	b  strings.Builder
+}
+
+func (l *c11LockedBuffer) Write(p []byte) (int, error) {
+	l.mu.Lock()
+	defer l.mu.Unlock()
+	return l.b.Write(p)
+}
+
+func (l *c11LockedBuffer) String() string {
+	l.mu.Lock()
+	defer l.mu.Unlock()
+	return l.b.String()
 }
 
 type c11CountingClient struct {
@@ -210,7 +271,13 @@ func c11InprocJudge(sc c11InprocScenario, obs *c11InprocObs, leak string) (verdi
 	}
 	names := make([]string, 0, sc.N)
 	for i := 0; i < sc.N; i++ {
-		names = append(names, fmt.Sprintf("s/c%d", i))
+		names = append(names, c11InprocName(sc, fmt.Sprintf("s/c%d", i)))
+	}
+	if !obs.implDone {
+		add("server-not-stopped", "the in-process server function was still running (blocked) after the batch had returned and everything else was quiet")
+	}
+	if sc.LongLine > 0 && sc.RefSrv && !strings.Contains(strings.Join(obs.errLines, "\n"), strings.Repeat("x", sc.LongLine-1)) {
+		add("stderr-line-swallowed", "a stderr line of %d bytes of the in-process reference server was not passed through in full", sc.LongLine)
 	}
 	usable := sc.Resp == "ok"
 	setup, ran := 0, 0
@@ -253,11 +320,11 @@ func c11InprocJudge(sc c11InprocScenario, obs *c11InprocObs, leak string) (verdi
 				continue
 			}
 			msg := strings.TrimPrefix(l, "s/c0: ")
-			o := obs.outcomes["s/c0"]
+			o := obs.outcomes[c11InprocName(sc, "s/c0")]
 			if !strings.Contains(rep, msg) && !(o.actualFailure != nil && strings.Contains(o.actualFailure.Error(), msg)) {
 				add("feedback-not-attributed", "feedback %q for s/c0 does not show up in that case's reported failure:\n%s", msg, rep)
 			}
-			if strings.Contains(printed, l) {
+			if strings.Contains(printed, c11InprocName(sc, "s/c0")+": "+msg) {
 				add("feedback-also-passed-through", "feedback line %q was printed as ordinary stderr output", l)
 			}
 		}
